@@ -31,7 +31,7 @@ SHARD_SIZE = 20
 
 
 def budget(tier):
-    return 240 if tier == "quick" else 4000
+    return 240 if tier == "quick" else 2000
 
 
 CAP = 10 ** 9
